@@ -560,6 +560,35 @@ def namedAttr (s : Schema) (name : String) : Nat → String → Option Bool
         | some true => some true
         | some false => namedAttr s name fuel sup) (some false)
 
+/-- resolved supertypes by name -/
+def superGraph (s : Schema) (n : String) : List String :=
+  match findEntity s n with
+  | some e => supersOf s e
+  | none => []
+
+/-- append the elements of the second list that are not there yet, one by one -/
+def addNew (acc : List String) : List String → List String
+  | [] => acc
+  | x :: xs => if x ∈ acc then addNew acc xs else addNew (acc ++ [x]) xs
+
+/-- the nodes reachable from `acc` in graph `g` (`acc` included), `fuel` rounds — for `g = superGraph s` what the marked search
+    `ENTITY_find_inherited_attribute` (one visit per entity and search) gets to see, cyclic supertypes or not -/
+def upClosure (g : String → List String) : Nat → List String → List String
+  | 0, acc => acc
+  | k + 1, acc =>
+    let acc' := addNew acc (acc.flatMap g)
+    if acc'.length = acc.length then acc else upClosure g k acc'
+
+def ownsAttr (s : Schema) (an : String) (en : String) : Bool :=
+  match findEntity s en with
+  | some e => e.attrs.any (·.name = an)
+  | none => false
+
+/-- `VARfind( entity, name, … )` = `ENTITYfind_inherited_attribute( entity, name, 0 )`: some entity among `en` and its
+    ancestors declares the attribute (terminates on cyclic supertypes, unlike `ENTITYget_named_attribute`) -/
+def varFind (s : Schema) (an : String) (fuel : Nat) (en : String) : Bool :=
+  (upClosure (superGraph s) fuel [en]).any (ownsAttr s an)
+
 /-- `ENTITYfind_inherited_entity( e, name, 0 )`: is `name` a proper ancestor of `en` (within `fuel` levels) -/
 def isAncestor (s : Schema) (name : String) : Nat → String → Bool
   | 0, _ => false
@@ -717,9 +746,7 @@ def ruleItemDiags (path : String) (env : Env) (s : Schema) (fuel : Nat) (e : Ent
   | .bareAttr an =>
     -- `VARfind`: own and inherited attributes only; otherwise the name is looked up in the enclosing scopes, and a domain
     -- rule, having no other reference to SELF or an attribute, is reported as well
-    (match namedAttr s an fuel e.name with
-     | some true => []
-     | _ => bareOutside path env s r an)
+    (if varFind s an fuel e.name then [] else bareOutside path env s r an)
   | .badGroup an =>
     -- `EXPresolve_op_group` on an operand that is no entity (the operand `SELF.x` has no name of its own), then the `.attr`
     [mk path LibErrors.GROUP_REF_UNEXPECTED_TYPE r.line [.str "<expression>".toList],
